@@ -27,7 +27,7 @@ def floors(tier):
             'exp_positive_square': 60, 'exp_zero_square': 40, 'exp_negative_square': 60, 'exp_rotated_operands': 60,
             'exp_kind_float': 60, 'exp_kind_int': 30, 'exp_kind_complex': 20, 'exp_kind_sympy': 20, 'exp_kind_array0d': 10,
             'sqrt_squares_back': 200, 'sqrt_B2_negative': 40, 'sqrt_B2_positive': 40, 'sqrt_B2_zero': 30, 'pow_half_is_sqrt': 150,
-            'integer_powers': 300, 'negative_powers': 100, 'norm_identities': 200}
+            'integer_powers': 300, 'negative_powers': 100, 'norm_identities': 200, 'integer_powers_in_registered_function': 100}
 
 
 def plan(tier, seed):
@@ -285,6 +285,19 @@ def pow_case(ctx, alg, iso, cfg, name):
     if bad:
         ctx.violation('x**n is not the repeated product', cid, config=cfg, keys=list(ks), values=[str(v) for v in vals.values()], n=n,
                       got=show_elem(iso.mv_to_ref(r)), expected=show_elem(want))
+    # the same power written inside a registered (compiled) function
+    if rng.random() < 0.5:
+        ns = {}
+        exec(f'def pw{abs(n)}{"m" if n < 0 else "p"}(x):\n    return x ** {n}\n', ns)
+        fn = [v for k, v in ns.items() if k.startswith('pw')][0]
+        st2, r2 = ctx.guarded(TO, lambda: alg.register(fn)(x))
+        if st2 == 'ok':
+            ctx.count('integer_powers_in_registered_function')
+            if elem_diff(iso.mv_to_ref(r2), want, tol=1e-9 if alg.d <= 5 else 1e-6):
+                ctx.violation('x**n inside a registered function is not the repeated product', cid + ['registered'], config=cfg, keys=list(ks),
+                              values=[str(v) for v in vals.values()], n=n, got=show_elem(iso.mv_to_ref(r2)), expected=show_elem(want))
+        elif st2 == 'exc':
+            ctx.note_raised(r2, 'pow-registered')
 
 
 def norm_case(ctx, alg, iso, cfg, name):
